@@ -108,13 +108,13 @@ def strategy(tier):
     triples = st.fixed_dictionaries({
         'actors': acts, 'two_ns': st.just(True),
         'bystander': st.booleans(),
-        'choices': st.lists(st.integers(0, 3), max_size=40)})
+        'choices': st.lists(st.integers(0, 3), min_size=15, max_size=40)})
     fine = st.fixed_dictionaries({
         'actors': st.lists(st.sampled_from(ACTORS), min_size=2, max_size=2),
         'two_ns': st.booleans(), 'bystander': st.booleans(),
         'fine': st.just(True),
         'choices': st.lists(st.sampled_from([0, 0, 0, 1, 1, 2]),
-                            max_size=60)}).filter(
+                            min_size=25, max_size=60)}).filter(
         lambda c: c['two_ns'] or 'odisc' not in c['actors'])
     # pairs at the granularity of the accesses to the shared table of
     # pending disconnects (inside one manager method)
@@ -123,9 +123,22 @@ def strategy(tier):
         'two_ns': st.booleans(), 'bystander': st.booleans(),
         'fine': st.just('dict'),
         'choices': st.lists(st.sampled_from([0, 0, 0, 1, 1, 2]),
-                            max_size=80)}).filter(
+                            min_size=30, max_size=80)}).filter(
         lambda c: c['two_ns'] or 'odisc' not in c['actors'])
-    return st.one_of(triples, fine, fine, table)
+    # the victim's neighbour on the same namespace (another transport) is
+    # disconnected by the application at the same time: the bookkeeping of
+    # a namespace is shared by its clients
+    neighbour = st.fixed_dictionaries({
+        'actors': st.lists(st.sampled_from(['sdisc', 'cdisc', 'lose']),
+                           min_size=2, max_size=2).map(
+                               lambda l: ['bydisc'] + l),
+        'two_ns': st.booleans(), 'bystander': st.just(True),
+        'fine': st.sampled_from([True, True, 'dict']),
+        # (long lists: once the choices are used up the scheduler always
+        # runs the first runnable thread, which explores nothing)
+        'choices': st.lists(st.sampled_from([0, 0, 0, 1, 1, 2]),
+                            min_size=40, max_size=80)})
+    return st.one_of(triples, fine, fine, table, neighbour, neighbour)
 
 
 def _yielding_pending_table(sched, m):
@@ -265,6 +278,8 @@ def _execute(case):
             return lambda: sock.receive(ep.Packet(ep.MESSAGE, '1'))
         if name == 'odisc':
             return lambda: sock.receive(ep.Packet(ep.MESSAGE, '1/x,'))
+        if name == 'bydisc':
+            return lambda: sio.disconnect(by['sid'], namespace='/')
 
         def lose():
             sock.close(wait=False, abort=True,
@@ -344,7 +359,16 @@ def _judge(case, sched, o):
         if o_killed and (m.is_connected(other['sid'], '/x') or any(
                 other['sid'] in v for v in m.pending_disconnect.values())):
             problems.append(('other-namespace-not-removed', ''))
-    if by is not None:
+    if by is not None and 'bydisc' in names:
+        b_inv = [e for e in o['log'] if e[1] == by['sid']]
+        if len(b_inv) != 1:
+            problems.append(('neighbour-disconnect-handler-count',
+                             '%d invocations' % len(b_inv)))
+        if m.is_connected(by['sid'], '/') or sio.rooms(by['sid']) or any(
+                by['sid'] in v for v in m.pending_disconnect.values()):
+            problems.append(('neighbour-not-removed', ''))
+        labels['neighbour_disconnected_too'] = True
+    elif by is not None:
         if not m.is_connected(by['sid'], '/') or set(sio.rooms(
                 by['sid'])) != {by['sid'], 'rb'}:
             problems.append(('bystander-affected', repr(sio.rooms(
